@@ -328,6 +328,7 @@ class DFXPWriter(BaseWriter):
 
         :rtype: str
         """
+        self.open_span = False
         dfxp = BeautifulSoup(DFXP_BASE_MARKUP, 'lxml-xml')
 
         langs = caption_set.get_languages()
